@@ -63,7 +63,8 @@ def _setup(scratch):
 
     if not xv.ENABLED:
         raise common.HarnessError("schedule-point hooks are not enabled (XONSH_XONSH_VERIF=1 must be set before xonsh is imported)")
-    _state.update(session=session, dir=d, scratch=scratch, xv=xv)
+    _state.update(session=session, dir=d, scratch=scratch, xv=xv,
+                  open={e["id"] for e in common.load_known(PROP) if e.get("status") == "open"})
     return _state
 
 
@@ -178,6 +179,22 @@ def expected_texts(segs, enc="utf-8"):
     return out
 
 
+def cr_mixed_match(segs, got, enc="utf-8"):
+    """True when `got` equals the payload text if every lone CR may *independently* be '\r' or '\n'
+    (the recorded per-occurrence inconsistency, C06-F2) - everything else exact."""
+    parts = []
+    for kind, b in segs:
+        if kind == "text":
+            parts.append(re.escape(b.decode(enc)))
+        elif kind == "nl":
+            parts.append({b"\n": "\n", b"\r\n": "(?:\r\n|\n)", b"\r": "[\r\n]"}[b])
+        elif kind == "bin":
+            return False
+    rx = "".join(parts)
+    g = strip_escapes(segs, got, enc)
+    return re.fullmatch(rx, g, re.S) is not None or re.fullmatch(rx, g + "\n", re.S) is not None
+
+
 def strip_escapes(segs, got, enc="utf-8"):
     for e in sorted({b.decode(enc) for k, b in segs if k == "esc"}, key=len, reverse=True):
         got = got.replace(e, "")
@@ -217,6 +234,12 @@ def gen_case(rnd):
     kind = ["dollar", "out", "iter", "raw", "rtn", "atdollar"][rnd.randrange(6)]
     binary_ok = kind in ("raw", "rtn")
     segs, payload = gen_payload(rnd, binary_ok)
+    if kind in ("dollar", "out", "iter") and "C06-F2" in _state.get("open", ()) and rnd.randrange(6) != 0 \
+            and any(k == "nl" and b == b"\r" for k, b in segs):
+        # recorded finding: lone CRs are normalised per occurrence; mostly avoided (counted by the caller)
+        segs = [[k, (b"\n" if (k == "nl" and b == b"\r") else b)] for k, b in segs]
+        payload = b"".join(b for _k, b in segs)
+        _state["avoided_f2"] = _state.get("avoided_f2", 0) + 1
     if kind == "atdollar":
         # @$() splits on whitespace: keep to a small text payload of plain words
         words = ["w%d" % rnd.randrange(100) for _ in range(1 + rnd.randrange(5))]
@@ -364,6 +387,8 @@ def run_case(case):
 def classify(case, kind, detail):
     if kind == "split-char" and case["thread"] and case["kind"] in ("out", "iter"):
         return "C06-F1"
+    if kind == "cr-inconsistent":
+        return "C06-F2"
     return None
 
 
@@ -407,6 +432,8 @@ def check_case(case):
                         fixed = None
                     if fixed is not None and fixed != got and match_text(segs, fixed) is None:
                         problems.append(("split-char", "%s view: a multi-byte character split between two reads was decoded per chunk: %s" % (kind, why)))
+                    elif any(k == "nl" and b == b"\r" for k, b in segs) and cr_mixed_match(segs, got):
+                        problems.append(("cr-inconsistent", "%s view: lone CRs are normalised per occurrence (depending on where the reads fall), not uniformly: %s" % (kind, why)))
                     else:
                         problems.append(("text-differs", "%s view does not match the payload under any consistent reading: %s" % (kind, why)))
             if kind == "iter" and isinstance(R, list) and any(("\n" in ln[:-1]) for ln in R if ln):
@@ -492,6 +519,8 @@ def worker(arg):
                 break
 
     common.run_given(hs.randoms(use_true_random=False), body, seed, n)
+    if _state.get("avoided_f2"):
+        st.excluded_known["C06-F2"] += _state["avoided_f2"]
     best = {}
     for f in st.failures:
         b = best.get(f.bucket)
